@@ -386,5 +386,28 @@ NonAsciiName(m) == \E i \in 1..Len(m.fields) :
                                          \/ Kind(f.type) = "message" /\ \E j \in 1..Len(f.items) : NonAsciiName(f.items[j]))
 F39(m) == \E i \in 1..Len(m.fields) : Kind(m.fields[i].type) = "message" /\ \E j \in 1..Len(m.fields[i].items) : NonAsciiName(m.fields[i].items[j])
 
+\* some field, at any level, has zero items
+RECURSIVE HasZero(_)
+HasZero(m) == \E i \in 1..Len(m.fields) :
+                 \/ Len(m.fields[i].items) = 0
+                 \/ (Kind(m.fields[i].type) = "message" /\ \E j \in 1..Len(m.fields[i].items) : HasZero(m.fields[i].items[j]))
+
+\* (A field with zero items is INSIDE every implementation's repertoire: C08 quantifies over any counts and C++ writes it in the documented layout.)
 Common(impl, m) == CASE impl = "python" -> PyOK(m) [] impl = "pynative" -> PyNativeOK(m) [] OTHER -> TRUE
+
+\* Known findings F45mini / F45micro (see known_findings.json), as predicates:
+\*  F45mini   the Message has a field with zero items (any kind, any level): MMUnflattenMessage refuses the bytes, MMPut*Field(.., 0) returns NULL
+\*  F45micro  the Message has a RAW-BUFFER field with zero items: the micro writer has no call that writes one (UMAddData adds exactly one item), so
+\*            re-serialising what the reader read, and native construction, lose exactly those fields: the bytes are those of DropZeroRaw(m)
+F45mini(m) == HasZero(m)
+RECURSIVE HasZeroRaw(_)
+HasZeroRaw(m) == \E i \in 1..Len(m.fields) :
+                    \/ (Kind(m.fields[i].type) = "raw" /\ Len(m.fields[i].items) = 0)
+                    \/ (Kind(m.fields[i].type) = "message" /\ \E j \in 1..Len(m.fields[i].items) : HasZeroRaw(m.fields[i].items[j]))
+F45micro(m) == HasZeroRaw(m)
+RECURSIVE DropZeroRaw(_)
+DropZeroRaw(m) == LET fs == SelectSeq(m.fields, LAMBDA f : ~(Kind(f.type) = "raw" /\ Len(f.items) = 0)) IN
+                  [what |-> m.what,
+                   fields |-> [i \in 1..Len(fs) |-> IF Kind(fs[i].type) = "message" THEN [name |-> fs[i].name, type |-> fs[i].type, items |-> [j \in 1..Len(fs[i].items) |-> DropZeroRaw(fs[i].items[j])]]
+                                                     ELSE fs[i]]]
 =============================================================================
